@@ -28,7 +28,7 @@ ASSUMPTIONS = ['numerically solved dispersion/trace orders are compared to 1e-6 
 PLAN = {'quick': {'gen': 8}, 'thorough': {'gen': 16, 'tests': 1}}
 REQUIRED_BUCKETS = ['tilt:subpixel', 'tilt:pixels', 'tilt:beyond-output', 'du:aniso', 'du:iso', 'os>1', 'segmented',
                     'rep:ramp', 'rep:plane', 'rep:wavefront', 'rep:fit', 'multi-tilt', 'scan', 'disp:propagated', 'sequence', 'disp:order1', 'disp:order>1',
-                    'refit-after-update', 'refit-segmented']
+                    'refit-after-update', 'refit-segmented', 'fit:flat-segments']
 REQUIRED_ANCHORS = ['anchor:Tilt.shift', 'anchor:Field.shift', 'anchor:fit_tilt', 'anchor:ptt_vector',
                     'anchor:DispersiveTilt.shift', 'probe:propagate_dft']
 REQUIRED_ORACLES = ['rep=model', 'fit=lstsq', 'fit:opd+tilt', 'shift:additive', 'shift:order', 'shift:signs',
@@ -116,6 +116,15 @@ def rand_dispersive(rng):
     lam0 = rng.uniform(4e-7, 1e-6)
     d1 = rng.uniform(1e-4, 5e-4) * rng.choice([-1, 1])
     disp = [rng.normal() * 1e-2 * abs(d1) * 10 ** (2 * (k - 2)) for k in range(do, 1, -1)] + [d1, lam0]
+    if rng.random() < 0.25:
+        # polynomials stored with leading zero coefficients (fixed-length calibration rows): same polynomial, same displacement;
+        # the nominal order (len - 1) is what decides which evaluation path lentil takes, hence the tolerance class below
+        if rng.random() < 0.7:
+            trace = [0.0] * int(rng.integers(1, 3)) + trace
+            to = len(trace) - 1
+        if rng.random() < 0.5:
+            disp = [0.0] * int(rng.integers(1, 3)) + disp
+            do = len(disp) - 1
     return trace, disp, to, do, lam0
 
 
@@ -373,6 +382,15 @@ def workload(ctx, lentil):
             segs = A[None]
         opd = rng.normal(size=shape) * 1e-7 + ramp(shape, dxs, rng.normal() * 1e-5, rng.normal() * 1e-5) \
             + rng.normal() * 1e-7
+        if len(segs) >= 2 and rng.random() < 0.35:
+            # some segments perfectly flat (OPD exactly zero) while segments listed after them are tilted
+            flat = rng.random(len(segs)) < 0.5
+            flat[-1] = False
+            flat[0] = True if rng.random() < 0.7 else flat[0]
+            for sg, fl in zip(segs, flat):
+                if fl:
+                    opd[sg] = 0.0
+            ctx.bucket('fit:flat-segments')
         amp = gen.amplitude(rng, A)
         desc = {'fit_tilt': list(shape), 'segments': len(segs), 'seg3d': bool(seg), 'dx': list(dxs),
                 'opd': probe.fp_array(opd)[:10]}
@@ -398,12 +416,15 @@ def workload(ctx, lentil):
                 continue
             sol = np.linalg.lstsq(M, opd[sg], rcond=None)[0]
             rx, ry = ctor_angles(q.tilt[k])
-            sc = max(abs(sol[1]), abs(sol[2]), 1e-12)
+            # yardsticks: a perfectly flat segment has zero tilt and zero OPD, so rounding noise (1e-20 rad, 1e-39 m) is measured
+            # against the plane as a whole - its largest OPD, and the tilt that would produce that OPD across the array
+            oglob = max(float(np.max(np.abs(opd[A]))), 1e-300)
+            sc = max(abs(sol[1]), abs(sol[2]), oglob / (min(dxs) * max(shape)))
             ctx.close('fit=lstsq', np.array([rx, ry]), np.array([sol[1], sol[2]]), 1e-8, 'fit|angles',
                       'recorded angles are not the least-squares tip/tilt of the segment', dict(desc, seg=k), scale=sc)
             after = np.asarray(q.opd)
             rec = ramp(shape, dxs, rx, ry)
-            osc = max(float(np.max(np.abs(opd[sg]))), 1e-300)
+            osc = max(float(np.max(np.abs(opd[sg]))), oglob)
             ctx.close('fit:opd+tilt', (after + rec)[sg], opd[sg], 1e-10, 'fit|opd+tilt',
                       'OPD plus the recorded tilt ramp differs from the OPD before fitting (piston or more was removed)',
                       dict(desc, seg=k), scale=osc)
